@@ -44,6 +44,9 @@ FIXED = [
      'SourceCatalog.background_centroid passed (x, y) to map_coordinates (x/y swapped); any dx != dy offset'),
     ('C07', '446831d', '*background_centroid*',
      'SourceCatalog.background_centroid interpolated the background at the transposed position'),
+    ('C07', '0fbf4a3', '*background_*dtype:float<64',
+     'SourceCatalog kept a float32/float16 background in its narrow dtype: background_sum/background_mean accumulated '
+     'in float32/float16, background_centroid rounded to float32, float16 background raised RuntimeError in map_coordinates'),
     ('C07', '93227df', '*covar*',
      'semimajor_sigma/orientation/... NaN for thin (collinear-pixel) sources whose covariance determinant rounds to -1e-17'),
     ('C08', '2cb2f2c', '*extra*',
